@@ -250,6 +250,8 @@ def check_C12(ctx):
         recv.rule_errno_fresh(ctx, cfg, F)
         ctx.rule("ERRNO-FRESH").floor("read_sites[%s]" % cfg, 2, cfg)
         recv.rule_msg_commit(ctx, cfg, F)
+        # the attachments of an interrupted message are released on the error exit (a leaked attached sender keeps another channel from ever disconnecting)
+        fd.rule_fd_path(ctx, cfg, F, fd.build_model(F))
         send.rule_frag_route(ctx, cfg, F)
         send.rule_peer_closed(ctx, cfg, F)
         fd.rule_cloexec(ctx, cfg, F, None)
@@ -273,7 +275,10 @@ def check_C09(ctx):
         _result_used(ctx, cfg, F)
         tls.rule_tls_restore(ctx, cfg, F)
     for cfg, F in ctx.configs(["K1", "K2"]):
-        fd.rule_fd_drop(ctx, cfg, F, fd.build_model(F))
+        model = fd.build_model(F)
+        fd.rule_fd_drop(ctx, cfg, F, model)
+        # a receiver that exists nowhere for the program must not survive as a leaked descriptor (sends to it would keep succeeding)
+        fd.rule_fd_path(ctx, cfg, F, model)
     ctx.assume("Linux does not raise SIGPIPE for send on a SOCK_SEQPACKET socket whose peer is closed (EPIPE is returned)")
 
 
@@ -339,6 +344,7 @@ def check_C02(ctx):
         ctx.rule("DEDICATED-LAST").floor("pops[%s]" % cfg, 1, cfg)
         send.rule_one_packet(ctx, cfg, F)
         recv.rule_msg_commit(ctx, cfg, F)
+        recv.rule_trunc_err(ctx, cfg, F)
     for cfg, F in ctx.configs(["K1"]):
         # delivery through a receiver set: edge-triggered readiness means a member not drained loses (never delivers) messages
         rset.rule_set_unix(ctx, cfg, F)
@@ -349,6 +355,9 @@ def check_C02(ctx):
         _no_clone_receiver(ctx, cfg, F)
         ipcl.rule_buf_fresh(ctx, cfg, F)
         ipcl.rule_whole_buf(ctx, cfg, F)
+    for cfg, F in ctx.configs(["K4"]):
+        # a receiver turned into a stream is still the channel's receiver: every route must get installed, every message forwarded once
+        asyn.rule_as_loop(ctx, cfg, F)
     ctx.assume("SOCK_SEQPACKET keeps packet boundaries and per-socket FIFO order; crossbeam unbounded channels are FIFO")
 
 
@@ -377,6 +386,7 @@ def check_C06(ctx):
         ctx.rule("SET-ID").floor("event_ids[%s]" % cfg, 2, cfg)
         rset.rule_set_unix(ctx, cfg, F)
         ctx.rule("SET-DRAIN").floor("member_reads[%s]" % cfg, 1, cfg)
+        ctx.rule("SET-NOREBLOCK").floor("wait_sites[%s]" % cfg, 1, cfg)
         router.rule_batch_order(ctx, cfg, F, "SET-ORDER")
         ctx.rule("SET-CLOSE").floor("closed_paths[%s]" % cfg, 1, cfg)
         ctx.rule("SET-EINTR").floor("poll_sites[%s]" % cfg, 1, cfg)
